@@ -31,6 +31,36 @@ fn messages(seed: u64, count: usize) -> Vec<Vec<u8>> {
         .collect()
 }
 
+/// Messages m for which 0x42 x 40 || m is a far-tail string of the HashToPoint rejection sampler
+/// (the committed corpus of C14, found with the reference model).
+fn unlucky_messages(n: usize) -> &'static Vec<Vec<u8>> {
+    static M: OnceLock<(Vec<Vec<u8>>, Vec<Vec<u8>>)> = OnceLock::new();
+    let m = M.get_or_init(|| {
+        let dir = std::path::PathBuf::from(std::env::var("VERIF_DIR").unwrap_or_else(|_| ".".into())).join("corpus").join("C14");
+        let mut out = (vec![], vec![]);
+        if let Ok(rd) = std::fs::read_dir(dir) {
+            let mut files: Vec<_> = rd.filter_map(|e| e.ok()).map(|e| e.path()).collect();
+            files.sort();
+            for f in files {
+                let name = f.file_name().map(|x| x.to_string_lossy().to_string()).unwrap_or_default();
+                let Ok(text) = std::fs::read_to_string(&f) else { continue };
+                let Ok(v) = serde_json::from_str::<serde_json::Value>(&text) else { continue };
+                let Some(hexs) = v.get("case").and_then(|c| c.get("s")).and_then(|s| s.as_str()) else { continue };
+                let Ok(bytes) = crate::util::unhex(hexs) else { continue };
+                if bytes.len() > 40 && bytes[..40].iter().all(|&b| b == 0x42) {
+                    if name.starts_with("unlucky_512") {
+                        out.0.push(bytes[40..].to_vec());
+                    } else if name.starts_with("unlucky_1024") {
+                        out.1.push(bytes[40..].to_vec());
+                    }
+                }
+            }
+        }
+        out
+    });
+    if n == 512 { &m.0 } else { &m.1 }
+}
+
 // ------------------------------------------------------------------ keys generated here
 
 #[derive(Clone, Debug, Serialize, Deserialize)]
@@ -70,7 +100,14 @@ impl Sub for NativeKey {
         for (i, msg) in messages(c.msg_seed, c.count).iter().enumerate() {
             // 2. a signature made here, re-framed, is accepted by the reference verifier
             // (one in five is the signature the signer emits after discarding a forced first attempt)
-            let rng: Box<dyn rand::RngCore> = if i % 5 == 4 {
+            // (one in five hashes a far-tail HashToPoint string: salt 0x42 x 40 scripted through
+            // the signer's byte stream, message taken from the corpus of C14)
+            let unlucky = unlucky_messages(n);
+            let (msg, far_tail): (&Vec<u8>, bool) = if i % 5 == 2 && !unlucky.is_empty() { (&unlucky[(mix(c.msg_seed ^ i as u64) % unlucky.len() as u64) as usize], true) } else { (msg, false) };
+            let rng: Box<dyn rand::RngCore> = if far_tail {
+                st.count("native_signatures_over_far_tail_hash_strings");
+                Box::new(crate::util::ByteRng::new(vec![0x42u8; 40], Some(c.msg_seed ^ i as u64)))
+            } else if i % 5 == 4 {
                 st.count("native_signatures_after_a_forced_restart");
                 Box::new(crate::util::RestartRng::new(c.msg_seed ^ i as u64, n, 1))
             } else if i % 5 == 3 {
